@@ -537,7 +537,10 @@ def minimize_lbfgsb(
             mats,
             is_check_factorizations=is_check_factorization,
         )
-        d = xbar - x
+        # the truncated point can leave the box by a rounding error: a variable resting on
+        # its bound would then get an outward component of one ulp, the maximum feasible
+        # step would be zero and the line search could not start
+        d = np.clip(xbar, lb, ub) - x
 
         steplength = line_search(
             x,
